@@ -22,7 +22,8 @@ MODULE = "Sqfs.Props.C17"
 REQUIRED = ["Sqfs.C17." + n for n in (
     "sort_perm", "sort_sorted", "sort_stable", "first_match_wins", "exact_line_matches_one",
     "dont_compress_words", "dont_fragment_effect", "nosparse_effect", "no_tail_packing_only_large",
-    "no_tail_packing_layout")]
+    "no_tail_packing_layout", "dont_compress_effect", "dont_dedup_effect", "layout_follows_order",
+    "directives_preserve_content", "export_table_ok")]
 
 F_DC, F_DF, F_DD, F_NS = 1, 4, 8, 16          # cross-checked against the generated constants in run()
 FLAGNAMES = {F_DC: "dont_compress", F_DF: "dont_fragment", F_DD: "dont_deduplicate", F_NS: "nosparse"}
@@ -67,14 +68,16 @@ class Env:
         return out
 
     def tool(self, cmd, stdin=None, timeout=120):
+        """run a CLI tool of the working tree; stdout/stderr decoded leniently (names are arbitrary bytes)"""
+        class R:
+            pass
+        r = R()
         try:
-            if stdin is not None:
-                return vlib.sh([str(c) for c in cmd], input=stdin, env=self.env, timeout=timeout)
-            return vlib.sh([str(c) for c in cmd], env=self.env, timeout=timeout)
+            p = vlib.sh([str(c) for c in cmd], input=stdin if stdin is not None else b"", env=self.env, timeout=timeout, text=False)
+            r.returncode, r.stdout, r.stderr = p.returncode, p.stdout.decode("utf-8", "replace"), p.stderr.decode("utf-8", "replace")
         except Exception as e:                                   # timeout
-            class R:
-                returncode = 124; stdout = b"" if isinstance(stdin, bytes) else ""; stderr = "timeout: %s" % e
-            return R()
+            r.returncode, r.stdout, r.stderr = 124, "", "timeout: %s" % e
+        return r
 
 
 _reported = set()
@@ -403,6 +406,27 @@ def gen_pack_case(rng, idx, quick, flavour="gensquashfs"):
         case["sortfile"] = gen_sortfile(rng, paths, valid_only=True)
     else:
         case["sortfile"] = None
+    # targeted: a later twin of an earlier file carries a directive (the situations the directives exist for)
+    plain = [i for i, p in enumerate(paths) if plain_ok(p) and b'"' not in p]
+    if flavour == "gensquashfs" and len(plain) >= 2 and rng.random() < 0.55:
+        i, j = rng.sample(plain, 2)
+        kind = rng.random()
+        base = contents[i] if (len(contents[i]) and rng.random() < 0.6) else gen_content(rng, B, [])
+        if not base:
+            base = b"twin content " * rng.choice([3, 400, 1000])
+        contents[i] = base
+        if kind < 0.6:
+            contents[j] = base                                           # identical
+        elif kind < 0.8 and len(base) % B:
+            contents[j] = rng.randbytes(B * rng.randint(0, 2)) + base[len(base) - len(base) % B:]   # same tail
+        else:
+            contents[j] = base[:(len(base) // B) * B] + b"other tail"    # same blocks
+        fl = rng.choice([F_DD, F_DD, F_DC, F_NS, F_DF, F_DD | F_DC, F_DD | F_NS, F_DC | F_DF, rng.randint(0, 31) & 29])
+        fi = rng.choice([0, 0, 0, F_DC, F_NS, F_DD])
+        first, second = (i, j) if rng.random() < 0.8 else (j, i)
+        head = b"2 " + (gen_flags_token(rng, fi) + b" " if fi else b"") + paths[first] + b"\n" \
+            + b"3 " + (gen_flags_token(rng, fl) + b" " if fl else b"") + paths[second] + b"\n"
+        case["sortfile"] = head + (case["sortfile"] or b"")
     return case
 
 
@@ -441,7 +465,7 @@ def build_image(env, case, d):
             ti.mode = 0o644
             tf.addfile(ti, io.BytesIO(c))
     r = env.tool([env.t2s] + opts + [img], stdin=bio.getvalue())
-    return r.returncode, (r.stderr.decode("utf-8", "replace") if isinstance(r.stderr, bytes) else r.stderr), img
+    return r.returncode, r.stderr, img
 
 
 def parse_stat(text):
@@ -592,6 +616,9 @@ def effect_failures(case, order, real):
                         break
         if case["notail"] and size > B and ino["frag"] is not None:
             bad.append(("no_tail_packing_large", p))
+        if case["notail"] and 0 < size <= B and size % B and not (fl & F_DF) and ino["frag"] is None \
+                and (any(cont[p]) or (fl & F_NS)):
+            bad.append(("no_tail_packing_small", p))
         seen.append((ino["start"] + nbytes if stored else 0, (ino["frag"][0], ino["frag"][1], size % B) if ino["frag"] else None))
     return bad
 
@@ -810,6 +837,15 @@ def corpus_cases():
     out.append({"B": B, "paths": [b"a", b"b", b"c", b"d"], "contents": [b"x" * (2 * B), b"x" * (3 * B), bytes(B) + b"y" * 10, b"x" * B],
                 "comp": "gzip", "tool": "gensquashfs", "notail": True, "export": True, "devblk": 4096, "jobs": 1,
                 "sortfile": b"-1 [dont_deduplicate] d\n1 [glob,nosparse] *\n", "name": "overlapping dedup, -T, -e"})
+    big = (b"0123456789abcdef" * 1000)[:2 * B + 17]
+    out.append({"B": B, "paths": [b"a", b"b", b"c"], "contents": [big, big, big], "comp": "gzip", "tool": "gensquashfs", "notail": False,
+                "export": False, "devblk": 4096, "jobs": 1, "sortfile": b"1 [dont_deduplicate] b\n", "name": "dont_deduplicate twin (blocks and tail)"})
+    out.append({"B": B, "paths": [b"a", b"b", b"c"], "contents": [b"tiny tail", b"tiny tail", b"tiny tail"], "comp": "gzip", "tool": "gensquashfs",
+                "notail": True, "export": True, "devblk": 1024, "jobs": 1, "sortfile": b"1 [dont_deduplicate] b\n", "name": "dont_deduplicate twin (fragment only), -T on small files"})
+    out.append({"B": B, "paths": [b"a", b"b"], "contents": [bytes(B) + b"x" * 5, bytes(2 * B)], "comp": "xz", "tool": "gensquashfs", "notail": False,
+                "export": False, "devblk": 4096, "jobs": 1, "sortfile": b"1 [nosparse] a\n2 [nosparse,dont_fragment] b\n", "name": "nosparse zero blocks"})
+    out.append({"B": B, "paths": [b"a", b"b"], "contents": [b"x" * (B + 1), b"y" * 10], "comp": "lz4", "tool": "tar2sqfs", "notail": True,
+                "export": True, "devblk": 4096, "jobs": 1, "sortfile": None, "name": "tar2sqfs -T -e"})
     for i, c in enumerate(out):
         c["id"] = 100000 + i
     return out
@@ -890,6 +926,10 @@ def run(ctx):
     if not ok:
         ctx.violation("proof:C17", "proof obligations of C17 no longer check: " + " | ".join(problems)[:1500],
                       {"broken": problems, "theorems_file": "lean/Sqfs/Props/C17.lean"}, found_input=False)
+    wok, wlog = ctx.lean_build(["Sqfs.Witness.C17"])
+    if not wok:
+        ctx.violation("proof:C17-witness", "Sqfs/Witness/C17.lean (witnesses of D24/D26/D27 on the models of the pinned code) no longer builds",
+                      {"log": wlog[-1500:]}, found_input=False)
     if not consts_ok(ctx):
         ctx.violation("consts:C17", "SQFS_BLK_* flag values changed; the check's flag decoding no longer matches the headers",
                       {"correspondence": "tools/checks/c17.py F_* vs Sqfs/Generated/Consts.lean"}, found_input=False)
@@ -903,7 +943,7 @@ def run(ctx):
             j = json.loads(p.read_text())
             cases_a.append(([bytes.fromhex(x) for x in j["paths"]], bytes.fromhex(j["sortfile"])))
     ncorpus_a = len(cases_a)
-    for _ in range(1500 if quick else 20000):
+    for _ in range(4000 if quick else 30000):
         paths = gen_paths(ctx.rng)
         cases_a.append((paths, gen_sortfile(ctx.rng, paths)))
     sa = {"sort_cases": 0}
@@ -928,7 +968,7 @@ def run(ctx):
             j["id"] = 200000 + len(cases_b)
             cases_b.append(j)
     ncorpus_b = len(cases_b)
-    ngen = 90 if quick else 1200
+    ngen = 240 if quick else 2500
     for i in range(ngen):
         cases_b.append(gen_pack_case(ctx.rng, i, quick, "tar2sqfs" if i % 6 == 5 else "gensquashfs"))
     summary = {k: 0 for k in ("compared", "agree", "d24", "d26", "d27", "clause_bad", "corr_bad", "generator_rejects")}
